@@ -170,6 +170,19 @@ CLAIMS = {
               "both ways. Value-level equality after a round trip is not evaluated. Found F20 (fixed) and F21 (known finding)."),
         technique="writer/reader table extraction from MIR (derive-generated and hand-written impls) + exhaustive presence/decision tables",
         design_ref="§4 C20"),
+    "C09": dict(
+        category="other",
+        text=("Decides the scalar bookkeeping, not the cryptographic outcome: blind_non_last publishes exactly one scalar "
+              "last(v_k, abf_k, own inputs, other blinded outputs) + (-vbf_k) on every successful exit that blinded something, built from the "
+              "factors the blinding calls returned; blind_last adds every published scalar to last(value, abf, inputs, explicit outputs), uses "
+              "that blinder for the commitment and the explicit-value proof, and clears the list immediately before its only Ok exit; with "
+              "several own outputs it hides/restores the last output's blinder_index around the nested non-last call and empties its input "
+              "list; ValueBlindingFactor::last/AddAssign/Neg case tables; blind_checks selection as a 16-case decision table; surjection domain "
+              "order and presence conditions agree with verify_tx_amt_proofs; every field is_fully_blinded reads is written per blinded output. "
+              "NOT decided: balance and proof verification of the result, unblinding, any order/permutation claim beyond the fact that the "
+              "published scalars are summed commutatively."),
+        technique="structured-listing extraction + ordered effect rules + exhaustive predicate decision tables + sibling agreement",
+        design_ref="§4 C09"),
     "C17": dict(
         category="proof",
         text=("Proof by finite computation for the data-part clause: from the generator constants rustc evaluated out of /repo, all 31*N "
